@@ -181,6 +181,14 @@ def family_strategy():
         st.builds(lambda w, c: w + sp + c, st.sampled_from(BEFAFT), st.one_of(clock, date)),
         st.builds(lambda m1, m2, po: m1 + sp + m2 + sp + po, st.sampled_from(MODS), st.sampled_from(MODS), pod),
         st.builds(lambda wd, d: wd + sp + d, st.sampled_from(WEEKDAYS), st.one_of(date, st.builds(lambda d: "{}th".format(d), dom))),
+        # every order of date / weekday / part of day / clock (gluing rules carry fields over)
+        st.builds(lambda parts: sp.join(parts),
+                  st.permutations(["{date}", "{wd}", "{pod}", "{clock}"]).flatmap(
+                      lambda perm: st.tuples(*[{"{date}": date, "{wd}": st.sampled_from(WEEKDAYS), "{pod}": pod,
+                                                "{clock}": clock}[x] for x in perm[:3]]))),
+        st.builds(lambda parts: sp.join(parts),
+                  st.permutations(["{date}", "{wd}", "{pod}"]).flatmap(
+                      lambda perm: st.tuples(*[{"{date}": date, "{wd}": st.sampled_from(WEEKDAYS), "{pod}": pod}[x] for x in perm]))),
     ]
     return st.one_of(*fams)
 
